@@ -17,6 +17,9 @@ def scenarios(tier):
     # the owner hands over to a request registered before the threads started (the new owner runs and releases on the releasing thread) while another thread requests
     out.append(scen('own_preq_vs_wait', 2, OWNER0=1, PREQ=0, T1_REL=1, T2_ACQ=1, T2_REL=0))
     out.append(scen('own_preq_vs_try', 2, OWNER0=1, PREQ=1, T1_REL=0, T2_ACQ=0, T2_REL=1))
+    # the releasing owner comes straight back with try_lock while the other thread's request (which found the mutex held) is on its way in
+    out.append(scen('own_rel_try_vs_wait', 2, OWNER0=1, REQ_AFTER_REL=1, T1_REL=0, T1_ACQ=0, T2_ACQ=1, T2_REL=1))
+    out.append(scen('own_rel_try_vs_coro', 2, OWNER0=1, REQ_AFTER_REL=1, T1_REL=1, T1_ACQ=0, T2_ACQ=2, T2_REL=0))
     # two contenders on a free mutex
     for a1 in (0, 1, 2):
         for a2 in (a1, 1, 2) if a1 == 0 else (1, 2):
